@@ -333,6 +333,39 @@ Section Generic.
     - now destruct (Hcl i).
   Qed.
 
+  (* ---- the lock invariant: a client is inside a critical section iff it owns the lock (mutual exclusion) *)
+  Definition in_cs (c : client S O) : Prop :=
+    exists o p, c_cur c = Some (o, p) /\ lockedp o = true /\ body_ok p.
+
+  Theorem lock_invariant : forall progs g i, reachable code (init d0 progs) g ->
+    (in_cs (g_cl g i) <-> g_lock g = Some i).
+  Proof.
+    intros progs g i Hr. destruct (Inv_reachable progs g Hr) as (h & Hh & Hfreeg & Hheld & Hcl).
+    destruct (Hcl i) as [Hci _]. unfold cl_ok in Hci. split.
+    - intros (o & p & Ec & El & Hb). rewrite Ec, El in Hci.
+      destruct Hci as [(Hl & _)|[(Hl & Hp & Hm)|(Hl & r & Hp & Hm)]]; auto.
+      + destruct (code_locked_shape o El) as [b Eb]. rewrite Hp, Eb in Hb. contradiction.
+      + rewrite Hp in Hb. contradiction.
+    - intros Hl. destruct (Hheld i Hl) as (o & p & Ec & El). rewrite Ec, El in Hci.
+      destruct Hci as [(_ & h0 & _ & Hb & _)|[(Hn & _)|(Hn & _)]]; try congruence.
+      exists o, p. auto.
+  Qed.
+
+  (* ---- the managed objects in ANY reachable interleaved state: the sequential state of the history when no
+     client holds the lock, otherwise vis-related to the sequential states around the running operation *)
+  Theorem state_invariant : forall progs g, reachable code (init d0 progs) g ->
+    exists h, Forall (fun x => lockedp (snd x) = true) h
+      /\ ((g_lock g = None /\ g_data g = st h)
+          \/ exists j h0 o, g_lock g = Some j /\ h = h0 ++ [(j, o)]
+                            /\ vis (st h0) (st h) (g_data g)).
+  Proof.
+    intros progs g Hr. destruct (Inv_reachable progs g Hr) as (h & Hh & Hfreeg & Hheld & Hcl).
+    exists h. split; auto. destruct (g_lock g) as [j|] eqn:El; [right|left; auto].
+    destruct (Hheld j eq_refl) as (o & p & Ec & Elo). destruct (Hcl j) as [Hcj _]. unfold cl_ok in Hcj.
+    rewrite Ec, Elo in Hcj. destruct Hcj as [(_ & h0 & Eh & Hb & He & Ha & _)|[(Hn & _)|(Hn & _)]]; try congruence.
+    exists j, h0, o. repeat split; auto. subst h. rewrite st_app. destruct p; cbn in Ha; tauto.
+  Qed.
+
   (* ---- shared_no_raise *)
   Hypothesis Hnr : forall s o, I s -> lockedp o = true -> is_raised (snd (seq s o)) = false.
   Hypothesis Hrd : forall o d, is_raised (rd o d) = false.
@@ -534,4 +567,269 @@ Section LruShared.
              (lru_inv_empty mx) (fun s o H => proj1 (lru_step_ok D mx s o Hmx H)) lru_hlocked lru_hfree
              lru_hnr lru_hrd progs g i Hr).
   Qed.
+  Lemma lru_seq_inv : forall h : list (nat * op D), lru_inv mx (st_from lseq lru_empty h).
+  Proof.
+    intros h. apply (I_st lru (op D) lseq (lru_inv mx) lru_empty (lru_inv_empty mx)
+                       (fun s o H => proj1 (lru_step_ok D mx s o Hmx H))).
+  Qed.
+
+  (* shared_inv, LRUCache: in EVERY reachable interleaved state
+     - a client is inside a critical section iff it owns the lock (so at most one client is);
+     - when nobody owns the lock the managed dict and queue are a state of the sequential model (hence satisfy
+       lru_inv: bijection queue <-> dict, at most max_size entries);
+     - at every moment, also in the middle of an operation of another client, the dict has no duplicate keys and
+       at most max_size entries (len never exceeds max_size, not even transiently). *)
+  Theorem lru_shared_inv : forall progs g, reachable lcode (linit progs) g ->
+    (forall i, in_cs lru (op D) (lru_locked D) (g_cl g i) <-> g_lock g = Some i)
+    /\ (g_lock g = None -> exists h : list (nat * op D), g_data g = st_from lseq lru_empty h /\ lru_inv mx (g_data g))
+    /\ NoDup (map fst (l_dict (g_data g))) /\ length (l_dict (g_data g)) <= mx.
+  Proof.
+    intros progs g Hr. split; [|split].
+    - intros i. apply (lock_invariant lru (op D) lcode lseq (lru_inv mx) (lru_locked D) (lru_read D) lru_vis lru_empty
+                         (lru_inv_empty mx) (fun s o H => proj1 (lru_step_ok D mx s o Hmx H)) lru_hlocked lru_hfree
+                         progs g i Hr).
+    - intros Hl.
+      destruct (state_invariant lru (op D) lcode lseq (lru_inv mx) (lru_locked D) (lru_read D) lru_vis lru_empty
+                  (lru_inv_empty mx) (fun s o H => proj1 (lru_step_ok D mx s o Hmx H)) lru_hlocked lru_hfree
+                  progs g Hr) as (h & _ & [[_ E]|(j & h0 & o & Hj & _)]); [|congruence].
+      exists h. split; auto. rewrite E. apply lru_seq_inv.
+    - destruct (state_invariant lru (op D) lcode lseq (lru_inv mx) (lru_locked D) (lru_read D) lru_vis lru_empty
+                  (lru_inv_empty mx) (fun s o H => proj1 (lru_step_ok D mx s o Hmx H)) lru_hlocked lru_hfree
+                  progs g Hr) as (h & _ & [[_ E]|(j & h0 & o & Hj & Eh & [Hs|Hp])]).
+      + rewrite E. destruct (lru_seq_inv h) as (_ & Nk & _ & LE). auto.
+      + destruct (lru_seq_inv h0) as (_ & Nk & _ & LE). destruct (sub_keys _ _ _ Hs Nk) as (N1 & L1 & _).
+        split; auto. lia.
+      + rewrite Hp. destruct (lru_seq_inv h) as (_ & Nk & _ & LE). auto.
+  Qed.
+
+  (* what the lock-free calls `k in cache` and `len(cache)` can return: the answer on a dict dd that is the
+     dict of a state of the sequential run with some keys deleted (none, if no operation was in progress), or
+     the dict of the next state of the sequential run; in particular never more than max_size entries *)
+  Theorem lru_lockfree_values : forall (h : list (nat * op D)) x,
+    lockfree_ok lru (op D) lseq (lru_locked D) (lru_read D) lru_vis lru_empty h x ->
+    lru_locked D (fst x) = false ->
+    exists n dd,
+      (sub dd (l_dict (st_from lseq lru_empty (firstn n h)))
+       \/ dd = l_dict (st_from lseq lru_empty (firstn (Datatypes.S n) h)))
+      /\ length dd <= mx
+      /\ snd x = match fst x with
+                 | Mem k => OBool (amem k dd)
+                 | Len => OLen (length dd)
+                 | _ => ONone
+                 end.
+  Proof.
+    intros h [o r] [Hl|(d & Er & Ho)] Hf; cbn [fst snd] in *; [congruence|].
+    assert (Hr : r = match o with Mem k => OBool (amem k (l_dict d)) | Len => OLen (length (l_dict d)) | _ => ONone end).
+    { rewrite Er. destruct o; reflexivity. }
+    destruct Ho as [(n & Hn & E)|(n & i & o' & Hn & [Hs|Hp])].
+    - exists n, (l_dict d). split; [left; rewrite E; constructor|]. split; auto.
+      rewrite E. now destruct (lru_seq_inv (firstn n h)) as (_ & _ & _ & LE).
+    - exists n, (l_dict d). split; [now left|]. split; auto.
+      destruct (lru_seq_inv (firstn n h)) as (_ & Nk & _ & LE). destruct (sub_keys _ _ _ Hs Nk) as (_ & L1 & _). lia.
+    - exists n, (l_dict d). split; [now right|]. split; auto.
+      rewrite Hp. now destruct (lru_seq_inv (firstn (Datatypes.S n) h)) as (_ & _ & _ & LE).
+  Qed.
 End LruShared.
+
+(* ================================================================== HybridCache instance *)
+Section HybShared.
+  Variable A : arith.
+  Variables aw dw : num A.
+  Variable mx : nat.
+  Hypothesis Hmx : 1 <= mx.
+
+  Notation hcode := (hyb_code A aw dw mx).
+  Notation hseq := (hyb_step A aw dw mx true).
+  Notation H := (hyb A).
+
+  Definition hyb_vis (pre post d : H) : Prop :=
+    sub (h_dict d) (h_dict pre) \/ h_dict d = h_dict post.
+
+  Ltac hvis_tac :=
+    first [ left; cbn; apply sub_refl
+          | left; cbn; apply sub_del; apply sub_refl
+          | right; reflexivity ].
+
+  Lemma hyb_store_body_ok : forall k v d, body_ok H (hyb_store A k v d).
+  Proof. intros. cbn. auto. Qed.
+
+  Lemma hyb_expire_body_ok : forall rest, body_ok H rest -> body_ok H (hyb_expire_code A aw dw rest).
+  Proof.
+    intros rest Hr. unfold hyb_expire_code. cbn [body_ok]. intros s1 s2 s3.
+    match goal with |- body_ok _ (match ?x with _ => _ end) => destruct x as [nc|e] end; [|cbn; auto].
+    cbn [body_ok]. intros s4.
+    match goal with |- body_ok _ (match ?x with _ => _ end) => destruct x as [nd|e] end; [|cbn; auto].
+    cbn [body_ok]. intros s5.
+    destruct (scores A aw dw (h_cnt s5) nc nd) as [[|b r]|e]; cbn; auto.
+    intros d1. destruct (amem (argmin A b r) (h_dict d1)); cbn; auto.
+    intros d2. destruct (amem (argmin A b r) (h_cnt d2)); cbn; auto.
+    intros d3. destruct (amem (argmin A b r) (h_dur d3)); cbn; auto.
+  Qed.
+
+  (* the pieces of _expire on a state of the sequential model *)
+  Lemma hyb_parts : forall st, hyb_inv A mx st -> h_dict st <> [] ->
+    mapM (fun kv => if fold_left Nat.add (map snd (h_cnt st)) 0 =? 0 then Err ZeroDivisionError
+                    else Ok (fst kv, ndiv A (nnat A (snd kv)) (nnat A (fold_left Nat.add (map snd (h_cnt st)) 0))))
+         (h_cnt st)
+    = Ok (map (fun kv => (fst kv, ncount A st (snd kv))) (h_cnt st))
+    /\ mapM (fun kv => if nzero A (fold_left (nadd A) (map snd (h_dur st)) (n0 A)) then Ok (fst kv, n0 A)
+                       else Ok (fst kv, ndiv A (snd kv) (fold_left (nadd A) (map snd (h_dur st)) (n0 A))))
+            (h_dur st)
+       = Ok (map (fun kv => (fst kv, ndur A st (snd kv))) (h_dur st))
+    /\ scores A aw dw (h_cnt st) (map (fun kv => (fst kv, ncount A st (snd kv))) (h_cnt st))
+              (map (fun kv => (fst kv, ndur A st (snd kv))) (h_dur st)) = Ok (score_list A aw dw st)
+    /\ exists b r, score_list A aw dw st = b :: r /\ argmin A b r = victim A aw dw st
+                   /\ amem (victim A aw dw st) (h_dict st) = true
+                   /\ amem (victim A aw dw st) (h_cnt st) = true
+                   /\ amem (victim A aw dw st) (h_dur st) = true.
+  Proof.
+    intros st (Kc & Kd & ND & LE & POS) NE.
+    assert (NEc : h_cnt st <> []).
+    { intros E. rewrite E in Kc. cbn in Kc. destruct (h_dict st); [congruence | discriminate]. }
+    assert (NDc : NoDup (map fst (h_cnt st))) by (rewrite Kc; auto).
+    split; [|split; [|split]].
+    - apply mapM_map. intros kv Hin. fold (tot_c A st).
+      assert (1 <= tot_c A st).
+      { unfold tot_c. rewrite Forall_forall in POS. specialize (POS kv Hin).
+        pose proof (fold_add_ge (map snd (h_cnt st)) 0 (snd kv) (in_map snd _ _ Hin)). lia. }
+      destruct (tot_c A st =? 0) eqn:E; [apply Nat.eqb_eq in E; lia | reflexivity].
+    - apply mapM_map. intros kv Hin. fold (tot_d A st). unfold ndur. destruct (nzero A (tot_d A st)); reflexivity.
+    - unfold scores, score_list. apply mapM_map. intros kv Hin.
+      rewrite (aget_map _ _ (fun kv => ncount A st (snd kv))), (aget_map _ _ (fun kv => ndur A st (snd kv))).
+      rewrite (aget_In_NoDup _ _ kv NDc Hin). cbn.
+      assert (Hk : In (fst kv) (map fst (h_dur st))) by (rewrite Kd, <- Kc; now apply in_map).
+      apply amem_In in Hk. destruct (amem_aget _ _ Hk) as [d Hd]. unfold score_of. rewrite Hd. reflexivity.
+    - pose proof (victim_In A aw dw st NEc) as HV. unfold victim in *.
+      destruct (score_list A aw dw st) as [|b r] eqn:ES.
+      + unfold score_list in ES. destruct (h_cnt st); [congruence | discriminate].
+      + exists b, r. repeat split; auto; apply amem_In; [rewrite <- Kc | | rewrite Kd, <- Kc]; auto.
+  Qed.
+
+  Lemma hyb_hlocked : forall o, hyb_locked A o = true ->
+    exists b, hcode o = Acquire b /\ body_ok H b
+              /\ forall s, hyb_inv A mx s -> exec b s = hseq s o /\ always H (hyb_vis s (fst (hseq s o))) b s.
+  Proof.
+    intros o Hl. destruct o as [k v d|k|k| |]; try discriminate; cbn [hyb_code]; eexists; (split; [reflexivity|]).
+    - (* put *)
+      split.
+      { cbn [body_ok]. intros s. destruct (mx <=? length (h_dict s)).
+        - apply hyb_expire_body_ok. apply hyb_store_body_ok.
+        - apply hyb_store_body_ok. }
+      intros s Hinv. cbn [exec always hyb_step]. unfold hyb_put.
+      destruct (mx <=? length (h_dict s)) eqn:Efull.
+      + apply Nat.leb_le in Efull.
+        assert (NE : h_dict s <> []) by (intros E; rewrite E in Efull; cbn in Efull; lia).
+        rewrite (hyb_expire_eq A aw dw mx Hmx s Hinv NE).
+        destruct (hyb_parts s Hinv NE) as (E1 & E2 & E3 & b & r & ES & EV & M1 & M2 & M3).
+        unfold hyb_expire_code, hyb_store. cbn [exec always]. rewrite E1. cbn [exec always]. rewrite E2.
+        cbn [exec always]. rewrite E3, ES, EV.
+        repeat (cbn [negb exec always h_dict h_cnt h_dur fst snd]; rewrite ?M1, ?M2, ?M3).
+        split; [reflexivity|]. repeat split; hvis_tac.
+      + cbn [fst snd]. unfold hyb_store. cbn [exec always h_dict h_cnt h_dur]. split; [reflexivity|].
+        repeat split; hvis_tac.
+    - (* get *)
+      split.
+      { cbn. intros s. destruct (amem k (h_dict s)); cbn; auto. intros s1.
+        destruct (aget k (h_cnt s1)); cbn; auto. intros _ s3. destruct (aget k (h_dict s3)); cbn; auto. }
+      intros s Hinv. pose proof Hinv as (Kc & Kd & ND & LE & POS). cbn [hyb_step]. unfold hyb_get. cbn [exec always].
+      destruct (amem k (h_dict s)) eqn:Ek; cbn [negb exec always].
+      + assert (Ec : amem k (h_cnt s) = true) by (rewrite (amem_keys_eq _ _ _ _ k Kc); auto).
+        destruct (amem_aget _ _ Ec) as [c Hc]. rewrite Hc.
+        destruct (amem_aget _ _ Ek) as [v Hv]. cbn [exec always h_dict h_cnt h_dur]. rewrite Hv.
+        cbn [exec always fst]. split; [reflexivity|]. repeat split; hvis_tac.
+      + split; [reflexivity|]. repeat split; hvis_tac.
+    - (* clear *)
+      split; [cbn; auto|]. intros s Hinv. cbn. split; [reflexivity|]. repeat split; hvis_tac.
+  Qed.
+  Lemma hyb_hfree : forall o, hyb_locked A o = false ->
+    hcode o = Call (fun d => d) (fun d => Ret (hyb_read A o d)).
+  Proof. intros o E. destruct o; try discriminate; reflexivity. Qed.
+
+  Lemma hyb_hi : forall s o, hyb_inv A mx s -> hyb_inv A mx (fst (hseq s o)).
+  Proof. intros s o Hs. now apply hyb_step_ok. Qed.
+
+  Lemma hyb_hnr : forall s o, hyb_inv A mx s -> hyb_locked A o = true -> is_raised (snd (hseq s o)) = false.
+  Proof. intros s o Hs _. now apply hyb_step_ok. Qed.
+
+  Lemma hyb_hrd : forall o d, is_raised (hyb_read A o d) = false.
+  Proof. intros o d. destruct o; reflexivity. Qed.
+
+  Notation hinit := (init (O := op (num A)) (@hyb_empty A)).
+
+  Theorem hyb_shared_linearizable : forall progs g, reachable hcode (hinit progs) g -> complete g ->
+    exists h : list (nat * op (num A)),
+      Forall (fun x => hyb_locked A (snd x) = true) h
+      /\ g_lock g = None
+      /\ g_data g = st_from hseq hyb_empty h
+      /\ forall i,
+           map fst (rev (c_done (g_cl g i))) = progs i
+           /\ filter (fun x => hyb_locked A (fst x)) (rev (c_done (g_cl g i)))
+              = SharedSteps.proj i (res_from hseq hyb_empty h)
+           /\ Forall (lockfree_ok H (op (num A)) hseq (hyb_locked A) (hyb_read A) hyb_vis hyb_empty h)
+                     (c_done (g_cl g i)).
+  Proof.
+    intros progs g Hr Hc.
+    apply (linearizable H (op (num A)) hcode hseq (hyb_inv A mx) (hyb_locked A) (hyb_read A) hyb_vis hyb_empty
+             (hyb_inv_empty A mx Hmx) hyb_hi hyb_hlocked hyb_hfree progs g Hr Hc).
+  Qed.
+
+  Theorem hyb_shared_no_raise : forall progs g i, reachable hcode (hinit progs) g ->
+    Forall (fun x => is_raised (snd x) = false) (c_done (g_cl g i)).
+  Proof.
+    intros progs g i Hr.
+    apply (no_raise H (op (num A)) hcode hseq (hyb_inv A mx) (hyb_locked A) (hyb_read A) hyb_vis hyb_empty
+             (hyb_inv_empty A mx Hmx) hyb_hi hyb_hlocked hyb_hfree hyb_hnr hyb_hrd progs g i Hr).
+  Qed.
+
+  Lemma hyb_seq_inv : forall h : list (nat * op (num A)), hyb_inv A mx (st_from hseq hyb_empty h).
+  Proof. intros h. apply (I_st H (op (num A)) hseq (hyb_inv A mx) hyb_empty (hyb_inv_empty A mx Hmx) hyb_hi). Qed.
+
+  Theorem hyb_shared_inv : forall progs g, reachable hcode (hinit progs) g ->
+    (forall i, in_cs H (op (num A)) (hyb_locked A) (g_cl g i) <-> g_lock g = Some i)
+    /\ (g_lock g = None ->
+        exists h : list (nat * op (num A)), g_data g = st_from hseq hyb_empty h /\ hyb_inv A mx (g_data g))
+    /\ NoDup (map fst (h_dict (g_data g))) /\ length (h_dict (g_data g)) <= mx.
+  Proof.
+    intros progs g Hr. split; [|split].
+    - intros i. apply (lock_invariant H (op (num A)) hcode hseq (hyb_inv A mx) (hyb_locked A) (hyb_read A) hyb_vis
+                         hyb_empty (hyb_inv_empty A mx Hmx) hyb_hi hyb_hlocked hyb_hfree progs g i Hr).
+    - intros Hl.
+      destruct (state_invariant H (op (num A)) hcode hseq (hyb_inv A mx) (hyb_locked A) (hyb_read A) hyb_vis
+                  hyb_empty (hyb_inv_empty A mx Hmx) hyb_hi hyb_hlocked hyb_hfree progs g Hr)
+        as (h & _ & [[_ E]|(j & h0 & o & Hj & _)]); [|congruence].
+      exists h. split; auto. rewrite E. apply hyb_seq_inv.
+    - destruct (state_invariant H (op (num A)) hcode hseq (hyb_inv A mx) (hyb_locked A) (hyb_read A) hyb_vis
+                  hyb_empty (hyb_inv_empty A mx Hmx) hyb_hi hyb_hlocked hyb_hfree progs g Hr)
+        as (h & _ & [[_ E]|(j & h0 & o & Hj & Eh & [Hs|Hp])]).
+      + rewrite E. destruct (hyb_seq_inv h) as (_ & _ & Nk & LE & _). auto.
+      + destruct (hyb_seq_inv h0) as (_ & _ & Nk & LE & _). destruct (sub_keys _ _ _ Hs Nk) as (N1 & L1 & _).
+        split; auto. lia.
+      + rewrite Hp. destruct (hyb_seq_inv h) as (_ & _ & Nk & LE & _). auto.
+  Qed.
+
+  Theorem hyb_lockfree_values : forall (h : list (nat * op (num A))) x,
+    lockfree_ok H (op (num A)) hseq (hyb_locked A) (hyb_read A) hyb_vis hyb_empty h x ->
+    hyb_locked A (fst x) = false ->
+    exists n dd,
+      (sub dd (h_dict (st_from hseq hyb_empty (firstn n h)))
+       \/ dd = h_dict (st_from hseq hyb_empty (firstn (Datatypes.S n) h)))
+      /\ length dd <= mx
+      /\ snd x = match fst x with
+                 | Mem k => OBool (amem k dd)
+                 | Len => OLen (length dd)
+                 | _ => ONone
+                 end.
+  Proof.
+    intros h [o r] [Hl|(d & Er & Ho)] Hf; cbn [fst snd] in *; [congruence|].
+    assert (Hr : r = match o with Mem k => OBool (amem k (h_dict d)) | Len => OLen (length (h_dict d)) | _ => ONone end).
+    { rewrite Er. destruct o; reflexivity. }
+    destruct Ho as [(n & Hn & E)|(n & i & o' & Hn & [Hs|Hp])].
+    - exists n, (h_dict d). split; [left; rewrite E; constructor|]. split; auto.
+      rewrite E. now destruct (hyb_seq_inv (firstn n h)) as (_ & _ & _ & LE & _).
+    - exists n, (h_dict d). split; [now left|]. split; auto.
+      destruct (hyb_seq_inv (firstn n h)) as (_ & _ & Nk & LE & _).
+      destruct (sub_keys _ _ _ Hs Nk) as (_ & L1 & _). lia.
+    - exists n, (h_dict d). split; [now right|]. split; auto.
+      rewrite Hp. now destruct (hyb_seq_inv (firstn (Datatypes.S n) h)) as (_ & _ & _ & LE & _).
+  Qed.
+End HybShared.
